@@ -3,8 +3,8 @@
 # Confirms in scratch worktree /tmp/gwc: patch applies at /repo HEAD, workspace tests pass with it,
 # demo fails with it and passes without it.  On success stores /verif/seeded/<seed-id>/.
 ID=$1; PROP=$2; PATCH=$3; DEMO=$4; CRATE=$5; NEEDS=$6
-W=/tmp/gwc
-export CARGO_TARGET_DIR=/tmp/gwc_target CARGO_NET_OFFLINE=true
+W=${CONFIRM_W:-/tmp/gwc}
+export CARGO_TARGET_DIR=${CONFIRM_TGT:-/tmp/gwc_target} CARGO_NET_OFFLINE=true
 [ -d $W ] || git -C /repo worktree add -f --detach $W HEAD >/dev/null 2>&1
 cd $W && git checkout -q --detach 2>/dev/null; git reset -q --hard $(git -C /repo rev-parse HEAD) && git clean -fdq
 LOG=/tmp/confirm.$ID.log; : > $LOG
